@@ -505,6 +505,14 @@ func (rp *ReverseProxy) ServeHTTP(rw http.ResponseWriter, outreq *http.Request, 
 		//
 		// Most of the time forceSetTrailers should be false.
 		forceSetTrailers := len(res.Trailer) != announcedTrailerKeyCount
+		if forceSetTrailers {
+			// Unannounced trailers can only be sent in a chunked response.
+			// Flush now, so that net/http does not calculate the length
+			// of a short body, add a Content-Length and drop the trailers.
+			if fl, ok := rw.(http.Flusher); ok {
+				fl.Flush()
+			}
+		}
 		shallowCopyTrailers(rw.Header(), res.Trailer, forceSetTrailers)
 	}
 
